@@ -402,6 +402,15 @@ let sx_pnet p =
                                             | PABFloat (d, mn, mx) -> L [A "flt"; sz d; sz mn; sz mx]
                                             | PABEnum (d, vals) -> L (A "enm" :: ss d :: List.map ss vals))]) p.pn_attrs)]
 
+(* largest group count of a tree: the boolean wfb is quadratic in it (fixed members x groups), so the
+   theorem instance wfb(load p) is only re-evaluated below a bound (counted in WFSKIP) *)
+let rec psig_maxcount (PSig (_, _, _, _, _, body)) = match body with
+  | PSBMux (sigs, _, c, _, _) -> List.fold_left (fun m s -> max m (psig_maxcount s)) (BZ.to_int (z_of_coqz c)) sigs
+  | _ -> 0
+let pnet_maxcount p =
+  List.fold_left (fun m b -> List.fold_left (fun m i -> List.fold_left (fun m pm ->
+      List.fold_left (fun m s -> max m (psig_maxcount s)) m pm.pm_signals) m i.pif_msgs) m b.pb_ifaces) 0 p.pn_buses
+
 (* ---------------------------------------------------------------- main *)
 let cause_name = function
   | MissingField -> "MissingField" | MissingOneof -> "MissingOneof" | InvalidOneof -> "InvalidOneof"
@@ -421,7 +430,7 @@ let () =
   let verbose = Array.length Sys.argv > 2 && Sys.argv.(2) = "-v" in
   let nets : (string, net * sx) Hashtbl.t = Hashtbl.create 64 in
   let pnets : (string, pNet) Hashtbl.t = Hashtbl.create 64 in
-  let checks = ref 0 and bad = ref 0 and wffail = ref 0 and loads_ok = ref 0 and loads_err = ref 0 in
+  let checks = ref 0 and bad = ref 0 and wffail = ref 0 and wfskip = ref 0 and loads_ok = ref 0 and loads_err = ref 0 in
   let causes : (string, int) Hashtbl.t = Hashtbl.create 16 in
   let report kind id detail =
     incr bad;
@@ -437,6 +446,7 @@ let () =
           | "N" ->
             let sx = parse_sx line off in
             let n = net_of sx in
+            Hashtbl.reset nets;
             Hashtbl.replace nets id (n, canon sx);
             incr checks;
             (* theorem instance: load (save n) = Ok n' with the same projection; n well-formed *)
@@ -464,11 +474,13 @@ let () =
             let enc = String.sub line off (sp - off) in
             let sx = parse_sx line (sp + 1) in
             let p = Hashtbl.find pnets (id ^ "/" ^ enc) in
+            Hashtbl.remove pnets (id ^ "/" ^ enc);
             incr checks;
             let m = load now_time p in
             (match m with
              | Ok n' -> incr loads_ok;
-               if not (wfb n') then begin incr wffail; Printf.printf "WFFAIL load %s/%s model-loaded network is not well-formed\n" id enc end
+               if pnet_maxcount p > 300 then incr wfskip
+               else if not (wfb n') then begin incr wffail; Printf.printf "WFFAIL load %s/%s model-loaded network is not well-formed\n" id enc end
              | Err c -> incr loads_err;
                let k = cause_name c in
                Hashtbl.replace causes k (1 + (try Hashtbl.find causes k with Not_found -> 0)));
@@ -489,4 +501,5 @@ let () =
     done with End_of_file -> ());
   Hashtbl.iter (fun k v -> Printf.printf "CAUSE %s %d\n" k v) causes;
   Printf.printf "LOADS ok %d err %d\n" !loads_ok !loads_err;
+  Printf.printf "WFSKIP %d\n" !wfskip;
   Printf.printf "CHECKS %d MISMATCHES %d WFFAIL %d\n" !checks !bad !wffail
